@@ -25,6 +25,10 @@ pub static mut RUNNER_NT: usize = 0xA5A5_0007;
 /// 0 = Auto, 1 = Min, 2 = Exact
 pub static mut RUNNER_CS_KIND: usize = 0xA5A5_0008;
 pub static mut RUNNER_CS_VAL: usize = 0xA5A5_0009;
+/// harness switch: the model source reports an unknown length (unique bit patterns, see the note above)
+pub static mut UNKNOWN_LEN: usize = 0xA5A5_000A;
+pub const UNKNOWN_YES: usize = 0xA5A5_00AA;
+pub const UNKNOWN_NO: usize = 0xA5A5_00AB;
 
 pub fn chunk_of(t: usize) -> usize {
     unsafe {
